@@ -13,7 +13,7 @@ open Sio.Dispatch
 /-- some function handler is eligible for `(ns, ev)`: an exact-name handler (never for an event
     literally named `"*"`) or, for a non-reserved event, a catch-all event handler -/
 def eligibleFn (reserved : List Ev) (r : Reg) (ns : Ns) (ev : Ev) : Bool :=
-  r.exact ns ev || r.exact star ev || (!reserved.contains ev && (r.fn ns star || r.fn star star))
+  r.nsExact ns ev || r.exact star ev || (!reserved.contains ev && (r.nsCatch ns || r.fn star star))
 
 /-! ### the precedence table -/
 
@@ -21,28 +21,28 @@ def eligibleFn (reserved : List Ev) (r : Reg) (ns : Ns) (ev : Ev) : Bool :=
     list, registry, namespace and event (reserved or not; `"*"` as a name included: `Reg.exact` is false for it). -/
 theorem precedence_table_S (reserved : List Ev) (r : Reg) (ns : Ns) (ev : Ev) :
     resolveS reserved r ns ev =
-      table (reserved.contains ev) (r.exact ns ev) (r.fn ns star) (r.exact star ev) (r.fn star star)
-        (r.cls ns) (r.cls star) (r.hasMethod ns ev) (r.hasMethod star ev) := by
+      table (reserved.contains ev) (r.nsExact ns ev) (r.nsCatch ns) (r.exact star ev) (r.fn star star)
+        (r.nsCls ns) (r.cls star) (r.hasMethod ns ev) (r.hasMethod star ev) := by
   simp only [resolveS, getEventHandler, eventHandlerNs, eventHandlerStar, getNamespaceHandlerS,
-    triggerEvent, table, Reg.hasMethod]
-  cases reserved.contains ev <;> cases r.exact ns ev <;> cases r.fn ns star <;>
+    triggerEvent, table, Reg.hasMethod, Reg.nsExact, Reg.nsCatch, Reg.nsCls, bne]
+  cases (ns == star) <;> cases reserved.contains ev <;> cases r.exact ns ev <;> cases r.fn ns star <;>
     cases r.exact star ev <;> cases r.fn star star <;> cases r.cls ns <;> cases r.cls star <;> rfl
 
 /-- General form (client transcription). -/
 theorem precedence_table_C (reserved : List Ev) (r : Reg) (ns : Ns) (ev : Ev) :
     resolveC reserved r ns ev =
-      table (reserved.contains ev) (r.exact ns ev) (r.fn ns star) (r.exact star ev) (r.fn star star)
-        (r.cls ns) (r.cls star) (r.hasMethod ns ev) (r.hasMethod star ev) := by
+      table (reserved.contains ev) (r.nsExact ns ev) (r.nsCatch ns) (r.exact star ev) (r.fn star star)
+        (r.nsCls ns) (r.cls star) (r.hasMethod ns ev) (r.hasMethod star ev) := by
   simp only [resolveC, getEventHandler, eventHandlerNs, eventHandlerStar, getNamespaceHandlerC,
-    triggerEvent, table, Reg.hasMethod]
-  cases reserved.contains ev <;> cases r.exact ns ev <;> cases r.fn ns star <;>
+    triggerEvent, table, Reg.hasMethod, Reg.nsExact, Reg.nsCatch, Reg.nsCls, bne]
+  cases (ns == star) <;> cases reserved.contains ev <;> cases r.exact ns ev <;> cases r.fn ns star <;>
     cases r.exact star ev <;> cases r.fn star star <;> cases r.cls ns <;> cases r.cls star <;> rfl
 
 /-- All four classes, with the regenerated reserved lists. -/
 theorem precedence_table (k : Kind) (r : Reg) (ns : Ns) (ev : Ev) :
     resolve k r ns ev =
-      table ((reservedOf k).contains ev) (r.exact ns ev) (r.fn ns star) (r.exact star ev)
-        (r.fn star star) (r.cls ns) (r.cls star) (r.hasMethod ns ev) (r.hasMethod star ev) := by
+      table ((reservedOf k).contains ev) (r.nsExact ns ev) (r.nsCatch ns) (r.exact star ev)
+        (r.fn star star) (r.nsCls ns) (r.cls star) (r.hasMethod ns ev) (r.hasMethod star ev) := by
   cases k <;> simp only [resolve, reservedOf]
   · exact precedence_table_S _ r ns ev
   · exact precedence_table_S _ r ns ev
@@ -59,12 +59,12 @@ theorem contains_true {l : List Ev} {ev : Ev} (h : ev ∈ l) : l.contains ev = t
     every namespace and EVERY non-reserved event name — an event literally named `"*"` included.
     The two exact-name lines test `Reg.exact` (`ev ≠ "*"` and a handler registered under that
     name), so for `ev = "*"` they are never taken (`star_event`).  A class slot invokes the
-    attribute `on_<event>` (`methodName ev`) if the class has it.  No side condition on `ns` is
-    needed for the equation; what it means for a namespace literally named `"*"` is spelled out in
-    `star_namespace`. -/
+    attribute `on_<event>` (`methodName ev`) if the class has it.  Likewise the three
+    exact-namespace lines test `Reg.nsExact/nsCatch/nsCls` (`ns ≠ "*"` and …), so a namespace
+    literally named `"*"` is never an exact match (`star_namespace`). -/
 theorem precedence (k : Kind) (r : Reg) (ns : Ns) (ev : Ev) (hres : ev ∉ reservedOf k) :
     resolve k r ns ev =
-      match r.exact ns ev, r.fn ns star, r.exact star ev, r.fn star star, r.cls ns, r.cls star with
+      match r.nsExact ns ev, r.nsCatch ns, r.exact star ev, r.fn star star, r.nsCls ns, r.cls star with
       | true,  _,     _,     _,     _,     _     => .invoke .fnNsEv []
       | false, true,  _,     _,     _,     _     => .invoke .fnNsStar [.ev]
       | false, false, true,  _,     _,     _     => .invoke .fnStarEv [.ns]
@@ -76,14 +76,14 @@ theorem precedence (k : Kind) (r : Reg) (ns : Ns) (ev : Ev) (hres : ev ∉ reser
       | false, false, false, false, false, false => .notHandled := by
   rw [precedence_table, contains_false hres]
   simp only [table, Reg.hasMethod]
-  cases r.exact ns ev <;> cases r.fn ns star <;> cases r.exact star ev <;>
-    cases r.fn star star <;> cases r.cls ns <;> cases r.cls star <;> rfl
+  cases r.nsExact ns ev <;> cases r.nsCatch ns <;> cases r.exact star ev <;>
+    cases r.fn star star <;> cases r.nsCls ns <;> cases r.cls star <;> rfl
 
 /-- The same table for a reserved event: the two catch-all *event* lines disappear, everything else
     keeps its place. -/
 theorem precedence_reserved (k : Kind) (r : Reg) (ns : Ns) (ev : Ev) (hres : ev ∈ reservedOf k) :
     resolve k r ns ev =
-      match r.exact ns ev, r.exact star ev, r.cls ns, r.cls star with
+      match r.nsExact ns ev, r.exact star ev, r.nsCls ns, r.cls star with
       | true,  _,     _,     _     => .invoke .fnNsEv []
       | false, true,  _,     _     => .invoke .fnStarEv [.ns]
       | false, false, true,  _     =>
@@ -93,14 +93,22 @@ theorem precedence_reserved (k : Kind) (r : Reg) (ns : Ns) (ev : Ev) (hres : ev 
       | false, false, false, false => .notHandled := by
   rw [precedence_table, contains_true hres]
   simp only [table, Reg.hasMethod]
-  cases r.exact ns ev <;> cases r.fn ns star <;> cases r.exact star ev <;>
-    cases r.fn star star <;> cases r.cls ns <;> cases r.cls star <;> rfl
+  cases r.nsExact ns ev <;> cases r.nsCatch ns <;> cases r.exact star ev <;>
+    cases r.fn star star <;> cases r.nsCls ns <;> cases r.cls star <;> rfl
 
 theorem exact_star (r : Reg) (n : Ns) : r.exact n star = false := by
   simp [Reg.exact]
 
 theorem exact_of_ne (r : Reg) (n : Ns) {ev : Ev} (h : ev ≠ star) : r.exact n ev = r.fn n ev := by
   simp [Reg.exact, h]
+
+theorem nsBits_star (r : Reg) (ev : Ev) :
+    r.nsExact star ev = false ∧ r.nsCatch star = false ∧ r.nsCls star = false := by
+  simp [Reg.nsExact, Reg.nsCatch, Reg.nsCls]
+
+theorem nsBits_of_ne (r : Reg) {ns : Ns} (h : ns ≠ star) (ev : Ev) :
+    r.nsExact ns ev = r.exact ns ev ∧ r.nsCatch ns = r.fn ns star ∧ r.nsCls ns = r.cls ns := by
+  simp [Reg.nsExact, Reg.nsCatch, Reg.nsCls, h]
 
 /-- **An event literally named `"*"`** (it is not reserved on any class) is routed like any other
     event without a handler of its own: to the namespace's catch-all event handler with the event
@@ -110,7 +118,7 @@ theorem exact_of_ne (r : Reg) (n : Ns) {ev : Ev} (h : ev ≠ star) : r.exact n e
     line was `invoke fnNsEv []`: arguments shifted by one.) -/
 theorem star_event (k : Kind) (r : Reg) (ns : Ns) :
     resolve k r ns star =
-      (match r.fn ns star, r.fn star star, r.cls ns, r.cls star with
+      (match r.nsCatch ns, r.fn star star, r.nsCls ns, r.cls star with
        | true,  _,     _,     _     => .invoke .fnNsStar [.ev]
        | false, true,  _,     _     => .invoke .fnStarStar [.ev, .ns]
        | false, false, true,  _     =>
@@ -120,53 +128,67 @@ theorem star_event (k : Kind) (r : Reg) (ns : Ns) :
        | false, false, false, false => .notHandled) ∧
     (∀ pre, resolve k r ns star ≠ .invoke .fnNsEv pre ∧ resolve k r ns star ≠ .invoke .fnStarEv pre) := by
   have hres : star ∉ reservedOf k := by cases k <;> decide
-  rw [precedence k r ns star hres, exact_star, exact_star]
+  have h1 : r.nsExact ns star = false := by simp [Reg.nsExact, exact_star]
+  rw [precedence k r ns star hres, h1, exact_star]
   constructor
-  · cases r.fn ns star <;> cases r.fn star star <;> cases r.cls ns <;> cases r.cls star <;> rfl
+  · cases r.nsCatch ns <;> cases r.fn star star <;> cases r.nsCls ns <;> cases r.cls star <;> rfl
   · intro pre
-    cases r.fn ns star <;> cases r.fn star star <;> cases r.cls ns <;> cases r.cls star <;>
+    cases r.nsCatch ns <;> cases r.fn star star <;> cases r.nsCls ns <;> cases r.cls star <;>
       cases r.attr ns (methodName star) <;> cases r.attr star (methodName star) <;> simp
 
 /-- **A namespace literally named `"*"`** (the default packet format cannot express one — a
-    namespace starts with `/` — but a msgpack peer can send it): AS CODED, the namespace key and the
-    catch-all key coincide, so the catch-all namespace's handlers are found by the *first* pair of
-    lookups and are invoked WITHOUT the namespace prepended (`[]` instead of `[ns]`, `[ev]` instead
-    of `[ev, ns]`; a class-based catch-all namespace likewise gets no namespace argument).  This is
-    what the code does, not what the statement asks for; see the finding reported with this check. -/
-theorem star_namespace (k : Kind) (r : Reg) (ev : Ev) (hres : ev ∉ reservedOf k) :
+    namespace starts with `/` — but a msgpack peer can send it) is routed like any other namespace
+    that has nothing registered under its own name: NEVER as an exact namespace match, whatever is
+    registered — to `handlers['*'][ev]` with `[ns]` prepended, else (non-reserved event) to
+    `handlers['*']['*']` with `[ev, ns]`, else to the catch-all class-based namespace with `[ns]`.
+    So the catch-all handlers always receive the namespace argument.  (Before /repo 74a0887 the
+    first line was `invoke fnNsEv []`: the handler's namespace parameter received the sid.) -/
+theorem star_namespace (k : Kind) (r : Reg) (ev : Ev) :
     resolve k r star ev =
-      match r.exact star ev, r.fn star star, r.cls star with
-      | true,  _,     _     => .invoke .fnNsEv []
-      | false, true,  _     => .invoke .fnNsStar [.ev]
-      | false, false, true  =>
-        bif r.attr star (methodName ev) then .invoke .clsNs [] else .dropped .clsNs
-      | false, false, false => .notHandled := by
-  rw [precedence k r star ev hres]
-  cases r.exact star ev <;> cases r.fn star star <;> cases r.cls star <;> rfl
+      (match r.exact star ev, !(reservedOf k).contains ev && r.fn star star, r.cls star with
+       | true,  _,     _     => .invoke .fnStarEv [.ns]
+       | false, true,  _     => .invoke .fnStarStar [.ev, .ns]
+       | false, false, true  =>
+         bif r.attr star (methodName ev) then .invoke .clsStar [.ns] else .dropped .clsStar
+       | false, false, false => .notHandled) ∧
+    (∀ pre, resolve k r star ev ≠ .invoke .fnNsEv pre ∧ resolve k r star ev ≠ .invoke .fnNsStar pre ∧
+            resolve k r star ev ≠ .invoke .clsNs pre) ∧
+    resolve k r star ev ≠ .dropped .clsNs := by
+  obtain ⟨h1, h2, h5⟩ := nsBits_star r ev
+  rw [precedence_table, h1, h2, h5]
+  simp only [table, Reg.hasMethod]
+  refine ⟨?_, ?_, ?_⟩
+  · cases (reservedOf k).contains ev <;> cases r.exact star ev <;> cases r.fn star star <;>
+      cases r.cls star <;> rfl
+  · intro pre
+    cases (reservedOf k).contains ev <;> cases r.exact star ev <;> cases r.fn star star <;>
+      cases r.cls star <;> cases r.attr star (methodName ev) <;> simp
+  · cases (reservedOf k).contains ev <;> cases r.exact star ev <;> cases r.fn star star <;>
+      cases r.cls star <;> cases r.attr star (methodName ev) <;> simp
 
 /-- Every line of the table is reachable: for `ns ≠ "*"` the presence bits and the two "class has
     the method" bits are independent — some registry realises any combination (non-vacuity of
-    `precedence`); for `ev = "*"` the two exact-name bits are necessarily false, the other six
-    remain free. -/
+    `precedence`); for `ev = "*"` the two exact-event bits are necessarily false, the other six
+    remain free.  (For `ns = "*"` the three exact-namespace bits are false: `nsBits_star`.) -/
 theorem precedence_realizable (ns : Ns) (ev : Ev) (hns : ns ≠ star)
     (b1 b2 b3 b4 b5 b6 m5 m6 : Bool) :
-    ∃ r : Reg, r.exact ns ev = (ev != star && b1) ∧ r.fn ns star = b2 ∧
+    ∃ r : Reg, r.nsExact ns ev = (ev != star && b1) ∧ r.nsCatch ns = b2 ∧
       r.exact star ev = (ev != star && b3) ∧ r.fn star star = b4 ∧
-      r.cls ns = b5 ∧ r.cls star = b6 ∧ r.attr ns (methodName ev) = m5 ∧
+      r.nsCls ns = b5 ∧ r.cls star = b6 ∧ r.attr ns (methodName ev) = m5 ∧
       r.attr star (methodName ev) = m6 := by
   refine ⟨{ fn := fun n e => if n = star then (if e = star then b4 else b3)
                               else (if e = star then b2 else b1),
             cls := fun n => if n = star then b6 else b5,
             attr := fun n _ => if n = star then m6 else m5 }, ?_⟩
-  by_cases hev : ev = star <;> simp [Reg.exact, hns, hev]
+  by_cases hev : ev = star <;> simp [Reg.exact, Reg.nsExact, Reg.nsCatch, Reg.nsCls, hns, hev]
 
 /-- The result depends on the registry only through the eight bits of the table: whatever else is
     registered (other events of the same namespace, other namespaces, other attributes of the
     classes) is irrelevant. -/
 theorem unrelated_irrelevant (k : Kind) (r r' : Reg) (ns : Ns) (ev : Ev)
-    (h1 : r.exact ns ev = r'.exact ns ev) (h2 : r.fn ns star = r'.fn ns star)
+    (h1 : r.nsExact ns ev = r'.nsExact ns ev) (h2 : r.nsCatch ns = r'.nsCatch ns)
     (h3 : r.exact star ev = r'.exact star ev) (h4 : r.fn star star = r'.fn star star)
-    (h5 : r.cls ns = r'.cls ns) (h6 : r.cls star = r'.cls star)
+    (h5 : r.nsCls ns = r'.nsCls ns) (h6 : r.cls star = r'.cls star)
     (h7 : r.attr ns (methodName ev) = r'.attr ns (methodName ev))
     (h8 : r.attr star (methodName ev) = r'.attr star (methodName ev)) :
     resolve k r ns ev = resolve k r' ns ev := by
@@ -204,13 +226,13 @@ theorem function_beats_class (k : Kind) (r : Reg) (ns : Ns) (ev : Ev) :
     one of the two class-based namespaces is registered. -/
 theorem class_only_without_function (k : Kind) (r : Reg) (ns : Ns) (ev : Ev) :
     isClassOutcome (resolve k r ns ev) =
-      (!eligibleFn (reservedOf k) r ns ev && (r.cls ns || r.cls star)) := by
+      (!eligibleFn (reservedOf k) r ns ev && (r.nsCls ns || r.cls star)) := by
   rw [precedence_table, table_class_iff]; rfl
 
 /-- …and an event with no target is dropped (`notHandled`) exactly when nothing is eligible. -/
 theorem not_handled_iff (k : Kind) (r : Reg) (ns : Ns) (ev : Ev) :
     resolve k r ns ev = .notHandled ↔
-      (eligibleFn (reservedOf k) r ns ev = false ∧ r.cls ns = false ∧ r.cls star = false) := by
+      (eligibleFn (reservedOf k) r ns ev = false ∧ r.nsCls ns = false ∧ r.cls star = false) := by
   have key : ∀ res b1 b2 b3 b4 b5 b6 m5 m6 : Bool,
       table res b1 b2 b3 b4 b5 b6 m5 m6 = .notHandled ↔
         ((b1 || b3 || (!res && (b2 || b4))) = false ∧ b5 = false ∧ b6 = false) := by decide
@@ -233,7 +255,7 @@ theorem table_reserved : ∀ b1 b2 b3 b4 b5 b6 m5 m6 : Bool,
 theorem reserved_never_catchall_event (k : Kind) (r : Reg) (ns : Ns) (ev : Ev)
     (hres : ev ∈ reservedOf k) (pre : List PArg) :
     resolve k r ns ev ≠ .invoke .fnNsStar pre ∧ resolve k r ns ev ≠ .invoke .fnStarStar pre := by
-  have h := table_reserved (r.exact ns ev) (r.fn ns star) (r.exact star ev) (r.fn star star) (r.cls ns)
+  have h := table_reserved (r.nsExact ns ev) (r.nsCatch ns) (r.exact star ev) (r.fn star star) (r.nsCls ns)
     (r.cls star) (r.hasMethod ns ev) (r.hasMethod star ev)
   rw [precedence_table, contains_true hres]
   constructor <;> (intro e; rw [e] at h; simp [isCatchAllEvent] at h)
@@ -305,16 +327,16 @@ def clsOk (b5 b6 m5 m6 : Bool) : Res → Bool
 theorem method_name (k : Kind) (r : Reg) (ns : Ns) (ev : Ev) (slot : Slot) (pre : List PArg)
     (h : resolve k r ns ev = .invoke slot pre) (hs : slot.isFn = false) :
     methodName ev = "on_".toList ++ ev ∧
-    ((slot = .clsNs ∧ pre = [] ∧ r.cls ns = true ∧ r.attr ns ("on_".toList ++ ev) = true) ∨
-     (slot = .clsStar ∧ pre = [.ns] ∧ r.cls ns = false ∧ r.cls star = true ∧
+    ((slot = .clsNs ∧ pre = [] ∧ r.nsCls ns = true ∧ r.attr ns ("on_".toList ++ ev) = true) ∨
+     (slot = .clsStar ∧ pre = [.ns] ∧ r.nsCls ns = false ∧ r.cls star = true ∧
         r.attr star ("on_".toList ++ ev) = true)) := by
   have hm : methodName ev = "on_".toList ++ ev := rfl
   refine ⟨hm, ?_⟩
   rw [← hm]
   have key : ∀ res b1 b2 b3 b4 b5 b6 m5 m6 : Bool,
       clsOk b5 b6 m5 m6 (table res b1 b2 b3 b4 b5 b6 m5 m6) = true := by decide
-  have h' := key ((reservedOf k).contains ev) (r.exact ns ev) (r.fn ns star) (r.exact star ev)
-    (r.fn star star) (r.cls ns) (r.cls star) (r.hasMethod ns ev) (r.hasMethod star ev)
+  have h' := key ((reservedOf k).contains ev) (r.nsExact ns ev) (r.nsCatch ns) (r.exact star ev)
+    (r.fn star star) (r.nsCls ns) (r.cls star) (r.hasMethod ns ev) (r.hasMethod star ev)
   rw [← precedence_table, h] at h'
   simpa [clsOk, hs, Reg.hasMethod, and_assoc] using h'
 
@@ -322,7 +344,7 @@ theorem method_name (k : Kind) (r : Reg) (ns : Ns) (ev : Ev) (slot : Slot) (pre 
     lacks `on_<event>`, the event is dropped — the catch-all class-based namespace is not tried,
     even if it is registered and has the method. -/
 theorem no_fallthrough (k : Kind) (r : Reg) (ns : Ns) (ev : Ev)
-    (hf : eligibleFn (reservedOf k) r ns ev = false) (hc : r.cls ns = true)
+    (hf : eligibleFn (reservedOf k) r ns ev = false) (hc : r.nsCls ns = true)
     (hm : r.attr ns (methodName ev) = false) :
     resolve k r ns ev = .dropped .clsNs := by
   have key : ∀ res b1 b2 b3 b4 b6 m6 : Bool, (b1 || b3 || (!res && (b2 || b4))) = false →
